@@ -278,7 +278,7 @@ func c03LongLines(r *ev.Run, pairs *atomic.Int64) {
 		"r3k2r/8/8/8/8/8/8/R3K2R w KQkq - 60 30",
 		"4k2n/8/8/8/8/8/8/N3K3 w - - 100 40",
 	}
-	plies := ev.Pick(r, 60, 160)
+	plies := ev.Pick(r, 170, 400) // beyond the initial capacity of the hash history (128) and beyond clock 127
 	for _, fen := range roots {
 		p := refchess.MustFEN(fen)
 		b := eng.Load(&p)
